@@ -24,7 +24,10 @@ LEVEL = 'model_checking'
 TRACE = 'trace/Trace_C12'
 RULE = ('case = one fault schedule of CleanWrite (mode x failing step x position of the failing write) x one PEL x '
         'entry point (parseAndWriteOutput / main), with and without --clean; non-trivial = a fault was injected or '
-        'the input was removed; distinct = by (mode, entry, fault, position, clean, hex, PEL)')
+        'the input was removed; distinct = by (mode, entry, fault, position, clean, hex, PEL).  Plus: one behaviour '
+        'of CleanWriteN (3 files, every step free to fail, the process free to die) enumerated by TLC and replayed '
+        'through the real -j -c (thorough: all 7483; quick: 30 per stratum); crash points and RLIMIT_FSIZE runs '
+        'in subprocesses')
 ASSUMPTIONS = [
     'output faults are injected at the Python I/O seam (open / write / flush / close of the output object, '
     'sys.stdout), raising OSError(ENOSPC/EIO) or BrokenPipeError, a raw (unbuffered) file object gets a partial write '
@@ -33,7 +36,7 @@ ASSUMPTIONS = [
     'a partial output file may remain after a failure (allowed by the statement)',
 ]
 MAX_PROCS = 8
-EXHAUSTIVE = {'quick': True, 'thorough': True}
+EXHAUSTIVE = {'quick': False, 'thorough': True}       # quick samples the CleanWriteN behaviours
 
 
 # CleanWriteN.tla: the -j -c loop over any set of files, any number of write calls, any failure schedule;
